@@ -25,13 +25,11 @@ Record obs_equal (a a' : archive) : Prop := {
   oe_string : forall x, read_string a' x = read_string a x;
   oe_pointer : forall x, read_pointer a' x = read_pointer a x;
   oe_labels : forall x, read_labels a' x = read_labels a x;
-  (* find_label_address agrees for every label that occurs on exactly one address *)
-  oe_find : forall l x, label_addrs a l = [x] -> find_label_address a' l = Some x }.
+  (* find_label_address (repaired code 10408e9: the lowest address carrying the label) agrees for EVERY label *)
+  oe_find : forall l, find_label_address a' l = find_label_address a l }.
 
 Lemma obs_equal_refl a : obs_equal a a.
-Proof.
-  constructor; try reflexivity. intros l x H. rewrite find_label_address_addrs, H. reflexivity.
-Qed.
+Proof. constructor; reflexivity. Qed.
 
 (* ---- everything a reader does with the raw bytes depends on a_data (and a_endian) only ---- *)
 Lemma size_congr a a' : a_data a' = a_data a -> size a' = size a.
@@ -92,3 +90,10 @@ Proof.
   rewrite find_label_address_addrs. destruct (label_addrs a' l) as [|y r]; [destruct Hx|].
   f_equal. apply min_of_all_eq. exact Hall.
 Qed.
+
+(* since the repair 10408e9 the lookup itself is a function of the label MAP: full agreement, duplicates included *)
+Lemma find_agree_all a a' :
+  NoDup (am_keys (a_labels a)) -> NoDup (am_keys (a_labels a')) ->
+  (forall x, am_get x (a_labels a') = am_get x (a_labels a)) ->
+  forall l, find_label_address a' l = find_label_address a l.
+Proof. intros N1 N2 G l. apply find_label_address_same_map; assumption. Qed.
